@@ -76,6 +76,7 @@ class TableModel(object):
             self.rows.append(dict(path=path, name=c.__name__, module=c.__module__, declared=declared,
                                   defaulted=defaulted, parents=parents, own_run=own_run,
                                   own_init='__init__' in c.__dict__,
+                                  none_defaults=[q for q in declared if hasattr(c, q) and getattr(c, q) is None],
                                   fields=fields or [], how=how, dim=e.dim,
                                   usable=not e.unconstructible, grid=e.grid))
 
@@ -85,14 +86,14 @@ class TableModel(object):
         o = [HEADER, '', 'namespace EPV.Gen.Tables', '',
              '/-- one public solver class, as found by introspection of exactpack.solvers -/',
              'structure Cls where', '  name : String', '  module : String', '  declared : List String',
-             '  defaulted : List String', '  parents : List String', '  ownRun : Bool', '  ownInit : Bool', '  fields : List String',
+             '  defaulted : List String', '  noneDefaults : List String', '  parents : List String', '  ownRun : Bool', '  ownInit : Bool', '  fields : List String',
              '  dim : Nat', '  usable : Bool', '  grid : Bool', '  deriving Repr, DecidableEq', '',
              'def classes : List Cls := [']
         rows = []
         for r in self.rows:
-            rows.append('  { name := "%s", module := "%s", declared := %s, defaulted := %s, parents := %s, ownRun := %s, ownInit := %s, '
+            rows.append('  { name := "%s", module := "%s", declared := %s, defaulted := %s, noneDefaults := %s, parents := %s, ownRun := %s, ownInit := %s, '
                         'fields := %s, dim := %d, usable := %s, grid := %s }'
-                        % (r['name'], r['module'], lst(r['declared']), lst(r['defaulted']), lst(r['parents']),
+                        % (r['name'], r['module'], lst(r['declared']), lst(r['defaulted']), lst(r['none_defaults']), lst(r['parents']),
                            'true' if r['own_run'] else 'false', 'true' if r['own_init'] else 'false',
                            lst(r['fields']), r['dim'],
                            'true' if r['usable'] else 'false', 'true' if r['grid'] else 'false'))
